@@ -44,13 +44,17 @@ Optional == [e \in Ents |-> IF e = "e2" THEN {"mail", "title"} ELSE {}]      \* 
 \* library's schema validation refuses such a document as a whole.
 Validity == {"absent", "future", "past", "pastOffset"}
 Scn == [vuDoc : Validity, vuE1 : Validity, sig : {"none", "valid", "invalid", "wrapped"}, cert : BOOLEAN,
-        dupe : BOOLEAN, order : {"AB", "BA"}]
+        dupe : BOOLEAN, order : {"AB", "BA"},
+        \* bLoose: source B is a remote source configured with its own option check_validity = false (source A then comes
+        \* from a file or another URL).  A per-source option binds that source only.
+        bLoose : BOOLEAN]
 
 VARIABLES scn, pc, loaded     \* loaded: sequence of sources registered, in load order
 vars == <<scn, pc, loaded>>
 \* a tampered or wrapped aggregate is only meaningful where a verification certificate is configured
 \* (without one it is simply another document)
 WellFormed(s) == /\ s.sig \in {"invalid", "wrapped"} => s.cert
+                 /\ s.bLoose => s.order = "BA" /\ s.sig \in {"none", "valid"}
                  /\ (s.vuDoc = "pastOffset" \/ s.vuE1 = "pastOffset") => s.sig \in {"none", "valid"}
 Init == scn \in {s \in Scn : WellFormed(s)} /\ pc = "load1" /\ loaded = <<>>
 
